@@ -135,6 +135,22 @@ type expTree struct {
 	I    string    `json:"i"`
 	Kids []expTree `json:"kids"`
 	A    []any     `json:"a"` // [] = no attribute, [[...]] = attribute elements
+	Rep  int       `json:"rep"` // > 0: the aggregate holds Kids repeated Rep times (wide aggregates are described run-length encoded)
+}
+
+// inflate writes out run-length encoded kids.
+func (t *expTree) inflate() {
+	if t.Rep > 0 {
+		unit := t.Kids
+		kids := make([]expTree, 0, t.Rep*len(unit))
+		for i := 0; i < t.Rep; i++ {
+			kids = append(kids, unit...)
+		}
+		t.Kids, t.Rep = kids, 0
+	}
+	for i := range t.Kids {
+		t.Kids[i].inflate()
+	}
 }
 
 func attrKids(a []any) ([]expTree, bool) {
